@@ -20,6 +20,8 @@ fn main() {
             "c11" => gens::gen_c11(r),
             "c06" => gens::gen_c06(r),
             "c05" => gens::gen_c05(r),
+            "c08" => gens::gen_c08(r),
+            "c15" => gens::gen_c15(r),
             "c10" => gens::gen_c10(r, false),
             "c10long" => gens::gen_c10(r, true),
             other => panic!("unknown generator {other}"),
